@@ -42,6 +42,9 @@ type Case struct {
 	Tools       bool   `json:"tools"`
 	Sys         bool   `json:"system"`
 	Turns       int    `json:"turns"`
+	// SizeDefault: translators.anthropic.max_message_size is left at 0 ("use the default"), a
+	// documented way to write the configuration; otherwise it is set explicitly
+	SizeDefault bool `json:"size_default,omitempty"`
 }
 
 var (
@@ -93,7 +96,7 @@ func respond(w http.ResponseWriter, r *http.Request, s *backend.Seen) {
 }
 
 func getRig(c Case) (*rigT, error) {
-	key := fmt.Sprintf("%s/%v/%s", c.Engine, c.Passthrough, c.Balancer)
+	key := fmt.Sprintf("%s/%v/%s/%v", c.Engine, c.Passthrough, c.Balancer, c.SizeDefault)
 	rigMu.Lock()
 	defer rigMu.Unlock()
 	if r, ok := rigs[key]; ok {
@@ -110,6 +113,9 @@ func getRig(c Case) (*rigT, error) {
 	}
 	s, err := stack.Boot(stack.Options{Engine: c.Engine, Balancer: c.Balancer, Mutate: func(cfg *config.Config) {
 		cfg.Translators.Anthropic.PassthroughEnabled = c.Passthrough
+		if c.SizeDefault {
+			cfg.Translators.Anthropic.MaxMessageSize = 0
+		}
 		cfg.Proxy.ConnectionTimeout = 3 * time.Second
 	}})
 	if err != nil {
@@ -364,6 +370,7 @@ func genCase(t *rapid.T) Case {
 		Tools:       rapid.Bool().Draw(t, "tools"),
 		Sys:         rapid.Bool().Draw(t, "sys"),
 		Turns:       rapid.SampledFrom([]int{1, 3, 5}).Draw(t, "turns"),
+		SizeDefault: rapid.IntRange(0, 3).Draw(t, "sizedefault") == 0,
 	}
 	n := rapid.IntRange(1, 4).Draw(t, "n")
 	for i := 0; i < n; i++ {
@@ -386,7 +393,7 @@ func enumeratePairs() {
 						if !rec.Thorough() && n%4 != 0 {
 							continue
 						}
-						c := Case{Engine: e, Passthrough: pt, Balancer: "priority", Stream: n%2 == 0, Turns: 1,
+						c := Case{Engine: e, Passthrough: pt, Balancer: "priority", Stream: n%2 == 0, Turns: 1, SizeDefault: n%3 == 0,
 							EPs: []EP{{Type: t1, Refuse: refuseFirst}, {Type: t2}}}
 						ev.Direct(rec, "mode", c, runCase)
 					}
